@@ -219,6 +219,14 @@ class Program:
             seqs = [s for s in seqs if s]
         return res
 
+    def method(self, q: str) -> Optional[FuncInfo]:
+        """`pkg.mod.Class.name` resolved the way an attribute access on an instance of Class resolves it (a method pulled up into a base
+        class is still found); a plain function name is looked up as such"""
+        cls, _, name = q.rpartition(".")
+        if cls in self.classes:
+            return self.lookup_method(cls, name)
+        return self.functions.get(q)
+
     def lookup_method(self, cls: str, name: str, after: Optional[str] = None) -> Optional[FuncInfo]:
         mro = self.mro(cls)
         if after is not None and after in mro:
